@@ -600,7 +600,7 @@ static void
 explore_dep(int pair, int T)
 {
 	char name[60];
-	snprintf(name, sizeof(name), "departure-%s", PP[pair].name);
+	snprintf(name, sizeof(name), "departure-%s%s", PP[pair].name, T == 2 ? "-dev2" : "");
 	vx_cfg c;
 	memset(&c, 0, sizeof(c));
 	c.prop     = "C03";
@@ -608,10 +608,10 @@ explore_dep(int pair, int T)
 	c.run      = run_departure;
 	c.arg      = (void *) (intptr_t) pair;
 	c.budget[VB_PREEMPT] = 1;
-	c.budget[VB_SWITCH]  = 2;
+	c.budget[VB_SWITCH]  = T ? 2 : 1; // T: 0 quick, 1 thorough, 2 quick with the thorough budget
 	c.budget[VB_TIMER]   = 0;
 	c.budget[VB_ENV]     = -1;
-	c.total              = T ? 2 : 2;
+	c.total              = T ? 2 : 1;
 	c.watchdog_s         = 20;
 	vx_explore(&c, NULL);
 }
@@ -720,6 +720,8 @@ main(int argc, char **argv)
 	// quick: the cooked pairings; thorough: all of them, also after a warm-up transfer
 	for (int pr = 0; pr < (T ? NPP : 7); pr++)
 		explore_dep(pr, T);
+	if (!T)
+		explore_dep(4, 2); // pair0 also with two deviations (the detached-pipe defect needs both)
 	if (T) {
 		for (g_pair = 0; g_pair < NPP; g_pair++) {
 			char name[60];
